@@ -87,7 +87,7 @@ struct RecHandle
   template<class B> void scatter(B& buf, std::size_t i, std::size_t n)
   {
     Call c; c.idx = (long) i; c.n = (long) n;
-    if (n <= 4096) for (std::size_t k = 0; k < n; ++k) { T v; buf.read(v); c.items.push_back(Codec<T>::dec(v)); }
+    if (n <= 400000) for (std::size_t k = 0; k < n; ++k) { T v; buf.read(v); c.items.push_back(Codec<T>::dec(v)); }
     log.push_back(c);
   }
 };
@@ -165,8 +165,34 @@ static void communicate(VSC& comm, H& h, const Case& c, int tmo)
   alarm(0);
 }
 
+#ifndef C06_NO_SPECIAL_MEMBERS
+// the special members of the communicator, kept in one place: if they stop compiling, checks/C06.py rebuilds the
+// driver with -DC06_NO_SPECIAL_MEMBERS, reports `compile:special-members` and still runs everything else
 template<class T>
-static void run_case(const Case& c, int rank, MPI_Comm cm, int tmo, std::vector<long>& ser, std::vector<long>& tr)
+static void special_members(const Case& c, MPI_Comm cm, const Dune::VariableSizeCommunicator<>::InterfaceMap& imap, std::size_t buf,
+                            RecHandle<T>& h, int tmo)
+{
+  typedef Dune::VariableSizeCommunicator<> VSC;
+  if (c.v == 4) {
+    VSC* orig = new VSC(cm, imap, buf);
+    const VSC& corig = *orig;
+    VSC copy(corig);                   // copy construction from a const source
+    delete orig;                       // the copy owns its own duplicated communicator
+    communicate(copy, h, c, tmo);
+  } else {
+    VSC::InterfaceMap other;           // an unrelated (empty) interface and a useless buffer size
+    VSC a(cm, imap, buf);
+    VSC b(cm, other, 1);
+    const VSC& ca = a;
+    b = ca;
+    VSC& br = b; b = br;               // self-assignment must leave it intact
+    communicate(b, h, c, tmo);
+  }
+}
+#endif
+
+template<class T>
+static void run_case(const Case& c, int rank, MPI_Comm cm, int tmo, std::vector<long>& ser, std::vector<long>& tr, bool& skipped)
 {
   typedef Dune::VariableSizeCommunicator<> VSC;
   RecHandle<T> h; h.fixed = (c.mode == 0); h.rank = rank; h.sizes = c.sz[rank];
@@ -188,18 +214,12 @@ static void run_case(const Case& c, int rank, MPI_Comm cm, int tmo, std::vector<
     VSC::InterfaceMap imap;
     fill_map(imap, c, rank);
     if (c.v == 1) { VSC comm(cm, imap); communicate(comm, h, c, tmo); }
-    else if (c.v == 4) {
-      VSC* orig = new VSC(cm, imap, buf);
-      VSC copy(*orig);
-      delete orig;                       // the copy owns its own duplicated communicator
-      communicate(copy, h, c, tmo);
-    } else if (c.v == 5) {
-      VSC::InterfaceMap other;           // an unrelated (empty) interface and a useless buffer size
-      VSC a(cm, imap, buf);
-      VSC b(cm, other, 1);
-      b = a;
-      VSC& br = b; b = br;               // self-assignment must leave it intact
-      communicate(b, h, c, tmo);
+    else if (c.v == 4 || c.v == 5) {
+#ifndef C06_NO_SPECIAL_MEMBERS
+      special_members<T>(c, cm, imap, buf, h, tmo);
+#else
+      skipped = true;                    // this binary was built without the copy constructor / assignment paths
+#endif
     } else if (c.v == 6) {
       VSC comm(cm, imap, buf);
       { RecHandle<T> warm = h; Case w = c; w.dir = 1 - c.dir; w.seed = c.seed ? c.seed + 1 : 0; communicate(comm, warm, w, tmo); }
@@ -233,13 +253,14 @@ int main(int argc, char** argv)
     bool ok = parse(line, c) && c.P >= 1 && c.P <= np && c.mb == BINARY_MB && c.v >= 0 && c.v <= 7 && c.t >= 0 && c.t <= 4;
     std::vector<long> ser;           // serialised log of this rank: idx n nitems items...
     std::vector<long> tr;            // dest count pairs
+    bool skipped = false;
     if (ok && rank < c.P) {
       switch (c.t) {
-        case 1: run_case<double>(c, rank, sub[c.P], tmo, ser, tr); break;
-        case 2: run_case<int>(c, rank, sub[c.P], tmo, ser, tr); break;
-        case 3: run_case<Pod>(c, rank, sub[c.P], tmo, ser, tr); break;
-        case 4: run_case<std::pair<int,double> >(c, rank, sub[c.P], tmo, ser, tr); break;
-        default: run_case<long>(c, rank, sub[c.P], tmo, ser, tr);
+        case 1: run_case<double>(c, rank, sub[c.P], tmo, ser, tr, skipped); break;
+        case 2: run_case<int>(c, rank, sub[c.P], tmo, ser, tr, skipped); break;
+        case 3: run_case<Pod>(c, rank, sub[c.P], tmo, ser, tr, skipped); break;
+        case 4: run_case<std::pair<int,double> >(c, rank, sub[c.P], tmo, ser, tr, skipped); break;
+        default: run_case<long>(c, rank, sub[c.P], tmo, ser, tr, skipped);
       }
     }
     // collect on world rank 0 (blocking collectives; a lost rank shows up as a hang of this step)
@@ -255,6 +276,7 @@ int main(int argc, char** argv)
     alarm(0);
     if (rank == 0) {
       if (!ok) { std::cout << "BADCASE" << std::endl; continue; }
+      if (skipped) { std::cout << "SKIPPED-SPECIAL-MEMBERS" << std::endl; continue; }
       std::ostringstream pub, deep;
       for (int r = 0; r < c.P; ++r) {
         const long* p = rb.data() + displs[r];
